@@ -32,6 +32,8 @@ struct Session {
     awaiting_ack: VecDeque<(usize, oneshot::Sender<Result<RxPacket, MqttError>>)>,
     subscriptions: VecDeque<(usize, mpsc::UnboundedSender<RxPacket>)>,
     retrasmit_queue: VecDeque<(usize, Bytes)>,
+    // Identifiers of inbound QoS 2 messages answered with PUBREC and not yet released by PUBREL.
+    awaiting_pubrel: VecDeque<u16>,
 }
 
 struct Connection {
@@ -94,6 +96,7 @@ where
         session.awaiting_ack.clear();
         session.subscriptions.clear();
         session.retrasmit_queue.clear();
+        session.awaiting_pubrel.clear();
     }
 
     fn validate_packet_size(connection: &Connection, packet: &[u8]) -> Result<(), MqttError> {
@@ -227,12 +230,25 @@ where
                 let qos = publish.qos;
                 let maybe_packet_id = publish.packet_identifier;
 
-                if let Some(subscription_identifier) =
-                    publish
-                        .subscription_identifier
-                        .map(|subscription_identifier| {
-                            NonZero::from(subscription_identifier).get().value() as usize
-                        })
+                // A QoS 2 PUBLISH whose identifier still awaits PUBREL is a re-delivery:
+                // it is acknowledged again but not handed to the application twice.
+                let is_redelivery = match (qos, maybe_packet_id) {
+                    (QoS::ExactlyOnce, Some(packet_id)) => {
+                        let known = session.awaiting_pubrel.contains(&packet_id.get());
+                        if !known {
+                            session.awaiting_pubrel.push_back(packet_id.get());
+                        }
+                        known
+                    }
+                    _ => false,
+                };
+
+                if let Some(subscription_identifier) = publish
+                    .subscription_identifier
+                    .filter(|_| !is_redelivery)
+                    .map(|subscription_identifier| {
+                        NonZero::from(subscription_identifier).get().value() as usize
+                    })
                 {
                     if let Some((_, subscription)) =
                         utils::linear_search_by_key(&session.subscriptions, subscription_identifier)
@@ -325,6 +341,9 @@ where
             }
             RxPacket::Pubrel(pubrel) => {
                 let packet_id = pubrel.packet_identifier;
+                session
+                    .awaiting_pubrel
+                    .retain(|awaiting| *awaiting != packet_id.get());
                 Self::ack::<PubcompReason>(tx, packet_id).await?
             }
             RxPacket::Connack(_) | RxPacket::Auth(_) => {
@@ -392,6 +411,7 @@ where
                     awaiting_ack: VecDeque::new(),
                     subscriptions: VecDeque::new(),
                     retrasmit_queue: VecDeque::new(),
+                    awaiting_pubrel: VecDeque::new(),
                 },
                 connection: Connection {
                     disconnection_timestamp: None,
